@@ -193,6 +193,16 @@ def h_eeprom_corrupt(sym):
     el, h, done = eeprom_parse(bad)
     assert not el.valid, 'corrupted image reported valid'
     sym.goal('corrupted')
+    # the same element object refreshed: first the intact image (valid), then the corrupted one -> the verdict must follow the
+    # image just read, not an earlier read
+    el2, h2, done2 = eeprom_parse(img)
+    assert el2.valid, 'intact image reported invalid'
+    h2.image = list(bad)
+    d3 = Calls()
+    el2.update(d3)
+    h2.serve_all()
+    assert not el2.valid, 'corrupted image reported valid after an earlier valid read of the same element'
+    sym.goal('refreshed')
 
 
 def h_eeprom_roundtrip(sym):
@@ -899,7 +909,7 @@ def h_crc_model(sym):
 HARNESSES = [
     Harness('crc_model', h_crc_model, quick=dict(lengths=(1, 2)), thorough=dict(lengths=(1, 2, 3)), timeout=(250, 900)),
     Harness('eeprom_valid', h_eeprom_valid, goals=('valid-v0', 'valid-v1', 'invalid', 'unknown-version'), timeout=(200, 600)),
-    Harness('eeprom_corrupt', h_eeprom_corrupt, goals=('corrupted',), timeout=(200, 600)),
+    Harness('eeprom_corrupt', h_eeprom_corrupt, goals=('corrupted', 'refreshed'), timeout=(200, 600)),
     Harness('ow_roundtrip', h_ow_roundtrip, quick=dict(n=2, maxlen=3), thorough=dict(n=2, maxlen=5), timeout=(250, 1500),
             goals=('0-elements', '1-elements', '2-elements', 'two-step-read')),
     Harness('ow_roundtrip[long]', h_ow_roundtrip, quick=dict(n=1, maxlen=16, lens=(5, 8, 16)),
